@@ -28,9 +28,15 @@ Print Assumptions C16_endpoint_deadline.
 (* Queue: what is stored per recipient (and copied into failure reports) is coherent, and its
    class is 4 exactly when the queue retries the recipient. *)
 Theorem C16_queue_class_agree :
-  forall e, wa e = true -> coherent (on_wire (to_smtp_err e)) = true.
+  forall e, wa e = true -> coherent (to_smtp_err e) = true.
 Proof. exact to_smtp_err_coherent. Qed.
 Print Assumptions C16_queue_class_agree.
+
+(* ... and always carries a status class, so a failure report can be generated from it (C18) *)
+Theorem C16_queue_error_has_status :
+  forall e, wa e = true -> Z.eqb (e0 (r_ench (to_smtp_err e))) 0 = false.
+Proof. exact to_smtp_err_has_status. Qed.
+Print Assumptions C16_queue_error_has_status.
 
 Theorem C16_queue_class_matches_retry :
   forall e, wa e = true -> Z.eqb (cls (r_code (to_smtp_err e))) 4 = is_temp_or_unspec e.
